@@ -400,6 +400,38 @@ func runC15(c *report.Ctx) {
 			c.Fail("AmountToString(api==masswallet)", "the two AmountToString implementations differ: the API and the wallet would print the same amount differently", p.Pos(a2sAPI.Pos()), "api:        "+sa, "masswallet: "+sb)
 		}
 	}
+	// the upper range test looks at the amount as given (before the guard digit is added)
+	c.Rule("range-test-on-input", "both AmountToString implementations compare the amount they were given — the parameter itself — with the maximum supply, before any arithmetic on it", 2)
+	for _, f := range []*ssa.Function{a2sAPI, a2sW} {
+		if f == nil || len(f.Params) == 0 {
+			continue
+		}
+		key := sk(f) + ":max-test"
+		ok, any := false, false
+		an.Instrs(f, func(in ssa.Instruction) {
+			b, isB := in.(*ssa.BinOp)
+			if !isB || !(b.Op == token.GTR || b.Op == token.LSS || b.Op == token.GEQ || b.Op == token.LEQ) {
+				return
+			}
+			d := p.Desc(b.X) + " " + p.Desc(b.Y)
+			if !strings.Contains(d, "MaxAmount") {
+				return
+			}
+			any = true
+			if b.X == ssa.Value(f.Params[0]) || b.Y == ssa.Value(f.Params[0]) {
+				ok = true
+			}
+		})
+		switch {
+		case ok:
+			c.OK(key, "m compared with MaxAmount directly", p.Pos(f.Pos()))
+		case any:
+			c.Fail(key, "the maximum-supply test is applied to a derived value, not to the amount as given: after the guard digit (10^8) is added the top 1 MASS of the legal range is refused", p.Pos(f.Pos()))
+		default:
+			// a comparison through a method (Uint128.Gt …) on a derived value, or no test at all
+			c.Fail(key, "no direct comparison of the given amount with the maximum supply found", p.Pos(f.Pos()))
+		}
+	}
 	ruleAmountStringUntouched(c)
 	ruleAmountCtorErrorUsed(c)
 }
@@ -418,33 +450,48 @@ func isFloaty(t types.Type) bool {
 	return false
 }
 
-// funcSignature: sorted multiset of resolved callees and constants of f.
+// funcSignature: the sorted SET of resolved external callees, operators and constants of f, with the helpers of f's
+// own package that it calls folded in (depth 1). A set — not a sequence or multiset — so that renaming, hoisting a
+// repeated sub-expression, naming a literal or extracting a block into a helper leave it unchanged, while another
+// callee, constant or comparison changes it.
 func funcSignature(p *an.Prog, f *ssa.Function) string {
-	var items []string
-	an.Instrs(f, func(in ssa.Instruction) {
-		if cc := an.CallOf(in); cc != nil {
-			items = append(items, "call:"+calleeName(p, in))
-		}
-		if b, ok := in.(*ssa.BinOp); ok {
-			items = append(items, "op:"+b.Op.String())
-		}
-		var ops [12]*ssa.Value
-		for _, op := range in.Operands(ops[:0]) {
-			if op == nil || *op == nil {
-				continue
-			}
-			if k, ok := (*op).(*ssa.Const); ok && k.Value != nil {
-				s := k.Value.ExactString()
-				if len(s) > 40 {
-					s = s[:40]
+	items := map[string]bool{}
+	var scan func(g *ssa.Function, depth int)
+	scan = func(g *ssa.Function, depth int) {
+		an.Instrs(g, func(in ssa.Instruction) {
+			if cc := an.CallOf(in); cc != nil {
+				if cal := cc.StaticCallee(); cal != nil && cal.Blocks != nil && cal != g && an.FuncPkg(cal) == an.FuncPkg(f) && depth < 1 {
+					scan(cal, depth+1)
+				} else if b, isB := cc.Value.(*ssa.Builtin); !(isB && b.Name() == "len") {
+					items["call:"+calleeName(p, in)] = true
 				}
-				if strings.Contains(s, "amount is out of range") {
+			}
+			if b, ok := in.(*ssa.BinOp); ok {
+				items["op:"+b.Op.String()] = true
+			}
+			var ops [12]*ssa.Value
+			for _, op := range in.Operands(ops[:0]) {
+				if op == nil || *op == nil {
 					continue
 				}
-				items = append(items, "k:"+s)
+				if k, ok := (*op).(*ssa.Const); ok && k.Value != nil {
+					s := k.Value.ExactString()
+					if len(s) > 40 {
+						s = s[:40]
+					}
+					if strings.Contains(s, "amount is out of range") {
+						continue
+					}
+					items["k:"+s] = true
+				}
 			}
-		}
-	})
-	sort.Strings(items)
-	return strings.Join(items, " ")
+		})
+	}
+	scan(f, 0)
+	var out []string
+	for k := range items {
+		out = append(out, k)
+	}
+	sort.Strings(out)
+	return strings.Join(out, " ")
 }
